@@ -43,6 +43,16 @@ def spec_T(b, W, kind, lo, hi, mn, mx, ext):
         if lo == 0:
             # no integer part: the dot is neither glued to a word character nor to a sign
             alts.append(R.cat(b.not_ending_in(R.cs_union(W, signs)), R.MARK, b.seq(dot, F), R.MARK, right))
+    elif kind == "PositiveDecimal":
+        if ext:
+            return None
+        # the sign rule of PositiveInteger: an explicit '+' (not glued to a word character), or no sign at all in front
+        left, left_nosign = b.not_ending_in(W), b.not_ending_in(R.cs_union(W, signs))
+        alts.append(R.cat(left, R.MARK, b.seq(b.lit("+"), canon, dot, F), R.MARK, right))
+        alts.append(R.cat(left_nosign, R.MARK, b.seq(canon, dot, F), R.MARK, right))
+        if lo == 0:
+            alts.append(R.cat(left, R.MARK, b.seq(b.lit("+"), dot, F), R.MARK, right))
+            alts.append(R.cat(left_nosign, R.MARK, b.seq(dot, F), R.MARK, right))
     elif kind == "NegativeDecimal":
         if ext:
             return None
@@ -76,6 +86,7 @@ def run(rep, tier):
             cases.append((f"UnsignedDecimal({args})", "UnsignedDecimal", lo, hi, mn, mx, False))
             cases.append((f"UnsignedDecimal({args}, is_extensible=True)", "UnsignedDecimal", lo, hi, mn, mx, True))
             cases.append((f"NegativeDecimal({args})", "NegativeDecimal", lo, hi, mn, mx, False))
+            cases.append((f"PositiveDecimal({args})", "PositiveDecimal", lo, hi, mn, mx, False))
     if tier == "quick":
         cases.append(("Decimal(0, 2147483647, 1, None)", "Decimal", 0, 2147483647, 1, None, False))
     built = lang.build([c[0] for c in cases])
